@@ -59,39 +59,25 @@ Theorem C14_solution_read_keeps_resources : forall (s : state V) label resp s',
   get_solution s label = Ok (resp, s') -> resources s' = resources s /\ st_model s' = st_model s /\ st_soltable s' = st_soltable s.
 Proof. exact solution_read_keeps_resources. Qed.
 
-(* 4. Route equivalence.  FULL statement (kept visible): from any reachable state, two sequences of reads,
-      whole-table PUTs, per-subcatchment PUTs and encoding PATCHes that each perform at least one successful write and
-      end in the same action set leave the same model representation (id, scenario, action set, valuation, and the
-      same value under every attribute name). *)
-Definition C14_route_equivalence_full : Prop :=
-  forall (s s1 s2 : state V) (rs1 rs2 : list (request V)),
+(* 4. Route equivalence, at full strength: from ANY reachable state, two sequences of reads, whole-table PUTs,
+      per-subcatchment PUTs and encoding PATCHes that each perform at least one successful write and end in the same
+      action set leave the same model representation (id, scenario, action set, valuation, and the same value under
+      every attribute name).  (Until proposed_fixes/C14-6 this held only for states in which the client had not patched
+      an engine-maintained attribute name; PATCH /model now refuses those names, which makes [tidy5] an invariant.) *)
+Theorem C14_route_equivalence : forall (s s1 s2 : state V) (rs1 rs2 : list (request V)),
   reachable s ->
   forallb wf_request rs1 = true -> forallb pure_route rs1 = true -> run s rs1 = Ok s1 -> wrote s rs1 = true ->
   forallb wf_request rs2 = true -> forallb pure_route rs2 = true -> run s rs2 = Ok s2 -> wrote s rs2 = true ->
   option_map m_bits (st_model s1) = option_map m_bits (st_model s2) ->
   exists sn1 sn2, st_snap s1 = Some sn1 /\ st_snap s2 = Some sn2 /\ same_representation sn1 sn2.
+Proof. exact route_equivalence_full. Qed.
 
-(* PARTIAL form, proved: the same with the hypothesis that in the starting state the engine-maintained attribute
-   names (Encoding, ParetoFrontMember, ValidAgainstScenario, ValidationErrors, ModelSuppliedPlanningUnitName) are
-   [tidy5]: each occurs at most once, non-null, and the planning-unit name still has its initial value.  That is the
-   case after every successful POST /scenario and is kept by the routes themselves (the two theorems below); it can only
-   be broken by a PATCH /model that names one of those attributes itself. *)
-Theorem C14_route_equivalence_partial : forall (s s1 s2 : state V) (rs1 rs2 : list (request V)) m,
-  reachable s -> st_model s = Some m -> tidy5 (m_attrs m) ->
-  forallb wf_request rs1 = true -> forallb pure_route rs1 = true -> run s rs1 = Ok s1 -> wrote s rs1 = true ->
-  forallb wf_request rs2 = true -> forallb pure_route rs2 = true -> run s rs2 = Ok s2 -> wrote s rs2 = true ->
-  option_map m_bits (st_model s1) = option_map m_bits (st_model s2) ->
-  exists sn1 sn2, st_snap s1 = Some sn1 /\ st_snap s2 = Some sn2 /\ same_representation sn1 sn2.
-Proof. exact route_equivalence. Qed.
-
-Theorem C14_tidy_after_post_scenario : forall (s : state V) (r : request V) resp s',
-  post_scenario s r = Ok (resp, s') -> rs_status resp = 200%nat -> exists m, st_model s' = Some m /\ tidy5 (m_attrs m).
-Proof. exact post_scenario_tidy. Qed.
-
-Theorem C14_tidy_kept_by_the_routes : forall (rs : list (request V)) (s s' : state V) m,
-  reachable s -> forallb wf_request rs = true -> forallb pure_route rs = true -> run s rs = Ok s' ->
-  st_model s = Some m -> tidy5 (m_attrs m) -> exists m', st_model s' = Some m' /\ tidy5 (m_attrs m').
-Proof. intros rs s s' m H. apply pure_run_keeps_tidy. now apply reachable_Inv. Qed.
+(* the invariant behind it: in every reachable state the engine-maintained attribute names (Encoding,
+   ParetoFrontMember, ValidAgainstScenario, ValidationErrors, ModelSuppliedPlanningUnitName) occur at most once,
+   non-null, and the planning-unit name has its initial value *)
+Theorem C14_engine_attributes_stay_tidy : forall (s : state V) m,
+  reachable s -> st_model s = Some m -> tidy5 (m_attrs m).
+Proof. intros s m Hr Em. exact (proj1 (reachable_tidy s Hr m Em)). Qed.
 
 End C14.
 
@@ -113,7 +99,7 @@ Proof. exact served_variables_are_the_catchment_valuation. Qed.
 
 Theorem C14_routes_serve_the_same_catchment_valuation :
   forall (d : Catchment.dataset) errs (s s1 s2 : state valuation) (rs1 rs2 : list (request valuation)) m,
-    reachable s -> st_model s = Some m -> m_desc m = engine_desc d errs -> tidy5 (m_attrs m) ->
+    reachable s -> st_model s = Some m -> m_desc m = engine_desc d errs ->
     forallb wf_request rs1 = true -> forallb pure_route rs1 = true -> Engine.run s rs1 = Ok s1 -> wrote s rs1 = true ->
     forallb wf_request rs2 = true -> forallb pure_route rs2 = true -> Engine.run s rs2 = Ok s2 -> wrote s rs2 = true ->
     option_map m_bits (st_model s1) = option_map m_bits (st_model s2) ->
@@ -122,9 +108,9 @@ Theorem C14_routes_serve_the_same_catchment_valuation :
 Proof. exact routes_serve_the_same_catchment_valuation. Qed.
 
 (* ---------------------------------------------------------------------------------------------------------------- *)
-(* The FULL route-equivalence statement is false of the faithful model.  Witness (replayed on the real engine by the
-   harness on every run, listed in tools/props/C14.known.json): after PATCH /model [{ModelSuppliedPlanningUnitName: "X"}]
-   the whole-table PUT keeps "X" while the encoding PATCH re-initialises a clone, which re-asserts "SubCatchment". *)
+(* Regression case: the former witness against full route equivalence.  PATCH /model [{ModelSuppliedPlanningUnitName: "X"}]
+   used to be accepted; the whole-table PUT then kept "X" while the encoding PATCH re-asserted "SubCatchment".  It is now
+   answered 400, leaves the state alone, and the two routes serve the same attributes. *)
 Definition w_desc : desc (list bool) :=
   {| d_actions := [(17%Z, "GullyRestoration"%string); (17%Z, "RiverBankRestoration"%string); (18%Z, "RiverBankRestoration"%string)];
      d_pus := [17%Z; 18%Z]; d_asis := [("SedimentProduction"%string, 1059911 # 1000)];
@@ -134,42 +120,27 @@ Definition w_req (m : meth) (rt : route) (ct : ctype) (j : json_view) : request 
      rq_csv := CsvOk {| t_header := ["SubCatchment"%string; "RiverBankRestoration"%string];
                         t_rows := [[CF (Fin (18 # 1)) "18"%string; CF (Fin (1 # 1)) "1"%string]] |};
      rq_json := j |}.
-Definition w_prefix : list (request (list bool)) :=
-  [ w_req MPost RScenario CtToml JsonErr;
-    w_req MPatch RModel CtJson (JsonAttrs [("ModelSuppliedPlanningUnitName"%string, AStr "X"%string)]) ].
+Definition w_patch_name : request (list bool) :=
+  w_req MPatch RModel CtJson (JsonAttrs [("ModelSuppliedPlanningUnitName"%string, AStr "X"%string)]).
+Definition w_prefix : list (request (list bool)) := [ w_req MPost RScenario CtToml JsonErr; w_patch_name ].
 Definition w_route_table : list (request (list bool)) := [ w_req MPut RActive CtCsv JsonErr ].
 Definition w_route_patch : list (request (list bool)) :=
   [ w_req MPatch RModel CtJson (JsonAttrs [("Encoding"%string, AStr "4"%string)]) ].
-
 Definition w_s : state (list bool) := Eval vm_compute in match run init_state w_prefix with Ok s => s | Panic => init_state end.
 Definition w_s1 : state (list bool) := Eval vm_compute in match run w_s w_route_table with Ok s => s | Panic => init_state end.
 Definition w_s2 : state (list bool) := Eval vm_compute in match run w_s w_route_patch with Ok s => s | Panic => init_state end.
-Example w_s_run : run init_state w_prefix = Ok w_s.
-Proof. vm_compute. reflexivity. Qed.
-Example w_s1_run : run w_s w_route_table = Ok w_s1.
-Proof. vm_compute. reflexivity. Qed.
-Example w_s2_run : run w_s w_route_patch = Ok w_s2.
-Proof. vm_compute. reflexivity. Qed.
-
-Theorem C14_route_equivalence_full_refuted : ~ @C14_route_equivalence_full (list bool).
+Example C14_regression_patched_planning_unit_name :
+  run init_state w_prefix = Ok w_s /\ run w_s w_route_table = Ok w_s1 /\ run w_s w_route_patch = Ok w_s2
+  /\ (exists resp, handle w_s w_patch_name = Ok (resp, w_s) /\ rs_status resp = 400%nat)
+  /\ option_map m_bits (st_model w_s1) = Some [false; false; true]
+  /\ option_map sn_attrs (st_snap w_s1) = option_map sn_attrs (st_snap w_s2)
+  /\ option_map (fun sn => a_value (sn_attrs sn) "ModelSuppliedPlanningUnitName") (st_snap w_s1) = Some (AStr "SubCatchment").
 Proof.
-  intro H.
-  destruct (H w_s w_s1 w_s2 w_route_table w_route_patch) as (sn1 & sn2 & S1 & S2 & (_ & _ & _ & _ & Hattr)).
-  - exists w_prefix. split; [vm_compute; reflexivity|exact w_s_run].
-  - vm_compute; reflexivity.
-  - vm_compute; reflexivity.
-  - exact w_s1_run.
-  - vm_compute; reflexivity.
-  - vm_compute; reflexivity.
-  - vm_compute; reflexivity.
-  - exact w_s2_run.
-  - vm_compute; reflexivity.
-  - vm_compute; reflexivity.
-  - vm_compute in S1, S2. inversion S1; subst sn1. inversion S2; subst sn2.
-    specialize (Hattr "ModelSuppliedPlanningUnitName"%string). vm_compute in Hattr. discriminate.
+  split; [vm_compute; reflexivity|]. split; [vm_compute; reflexivity|]. split; [vm_compute; reflexivity|].
+  split; [eexists; vm_compute; split; reflexivity|]. vm_compute. repeat split; reflexivity.
 Qed.
 
-(* Non-vacuity of the partial form: a reachable loaded state meeting [tidy5], and the three routes from it. *)
+(* Non-vacuity: a reachable loaded state and the three routes from it. *)
 Definition ex_loaded : list (request (list bool)) := [ w_req MPost RScenario CtToml JsonErr ].
 Definition ex_route_sub : list (request (list bool)) :=
   [ w_req MPut (RSubcatchment (Some 18%Z)) CtJson (JsonAttrs [("RiverBankRestoration"%string, AStr "Active"%string)]) ].
@@ -204,9 +175,7 @@ Print Assumptions C14_reads_depend_on_resources_only.
 Print Assumptions C14_snapshot_is_current.
 Print Assumptions C14_only_successful_writes_matter.
 Print Assumptions C14_solution_read_keeps_resources.
-Print Assumptions C14_route_equivalence_partial.
-Print Assumptions C14_tidy_after_post_scenario.
-Print Assumptions C14_tidy_kept_by_the_routes.
+Print Assumptions C14_route_equivalence.
+Print Assumptions C14_engine_attributes_stay_tidy.
 Print Assumptions C14_served_variables_are_the_catchment_valuation.
 Print Assumptions C14_routes_serve_the_same_catchment_valuation.
-Print Assumptions C14_route_equivalence_full_refuted.
